@@ -2,7 +2,7 @@
 from .common import hexs, exact_compare
 
 RULE = ("16-bit: every value written then parsed (unsigned and signed) at a random offset of a random buffer; "
-        "32-bit: bit-boundary patterns +-1 and random values; varuint: every byte string of length <= 2 (quick) / <= 3 "
+        "32-bit: bit-boundary patterns +-1 and random values; both widths also at offsets around 2^8, 2^16 and 2^17 of long buffers; varuint: every byte string of length <= 2 (quick) / <= 3 "
         "(thorough) and strings of length <= 7 over the boundary alphabet {00,01,0f,10,7f,80,81,8f,90,ff}, each at every "
         "start offset and several stated lengths; RGB565: all 65536 codes, colours on a grid (quick) / all 2^24 (thorough). "
         "A case is non-trivial unless the model answers 'oob' (read outside the supplied bytes); distinct = distinct case line.")
@@ -49,6 +49,16 @@ def cases(rng, tier):
             b2[off + i] = (v >> (8 * i)) & 255
         yield ("u32 %s %d" % (hexs(b2), off), "u32")
         yield ("i32 %s %d" % (hexs(b2), off), "i32")
+    # --- fixed-width codecs at large offsets (beyond 8-, 16- and 17-bit offsets): the offset is a size_t
+    for off in [254, 255, 256, 257, 65533, 65534, 65535, 65536, 65537, 70001, 131071, 131072, 131073] + ([rng.randint(258, 200000) for _ in range(40)] if thorough else []):
+        n = off + rng.randint(4, 9)
+        buf = [rng.randrange(256) for _ in range(n)]
+        v16, v32x = rng.getrandbits(16) | 0x8001, rng.getrandbits(32) | 0x80008001
+        yield ("w16 %s %d %d" % (hexs(buf), off, v16), "w16-long")
+        yield ("w32 %s %d %d" % (hexs(buf), off, v32x), "w32-long")
+        yield ("w32 %s %d %d" % (hexs(buf), off, v32x - (1 << 32)), "w32s-long")
+        for op in ("u16", "i16", "u32", "i32"):
+            yield ("%s %s %d" % (op, hexs(buf), off), op + "-long")
     # --- varuint
     def vu(bs, klass):
         L = len(bs)
